@@ -113,8 +113,17 @@ fn install_panic_hook() {
     }));
 }
 
+fn repo_prefix() -> String {
+    // the code under test normally lives in /repo; a scratch copy can be named for experiments
+    let mut p = std::env::var("VERIF_REPO_DIR").unwrap_or_else(|_| "/repo".to_string());
+    if !p.ends_with('/') {
+        p.push('/');
+    }
+    p
+}
+
 fn panic_in_code_under_test(file: &str) -> bool {
-    file.starts_with("/repo/") || file.starts_with("/root/.cargo/") || file.starts_with("/rustc/")
+    file.starts_with(repo_prefix().as_str()) || file.starts_with("/root/.cargo/") || file.starts_with("/rustc/")
         || file.contains("/.cargo/registry/")
         || file.contains("/rustlib/")
 }
@@ -189,7 +198,7 @@ pub fn exec_run(sc: &Scenario, tape: Tape, trace_on: bool, want_sample: bool) ->
                         Err(Violation::new("oracle_panic", rest.trim().to_string()))
                     } else if panic_in_code_under_test(&file) {
                         let short = file
-                            .strip_prefix("/repo/")
+                            .strip_prefix(repo_prefix().as_str())
                             .map(str::to_string)
                             .unwrap_or_else(|| {
                                 // registry path: keep crate-version/relative part
